@@ -31,6 +31,11 @@ pub struct Ev {
 	/// scripted child behaviours (reset events)
 	#[serde(skip_serializing_if = "Option::is_none")]
 	pub kids: Option<Vec<serde_json::Value>>,
+	/// paths whose watch / unwatch fails (reset events of the fs family)
+	#[serde(skip_serializing_if = "Option::is_none")]
+	pub fw: Option<Vec<String>>,
+	#[serde(skip_serializing_if = "Option::is_none")]
+	pub fu: Option<Vec<String>>,
 	/// tickets still pending (end events)
 	#[serde(skip_serializing_if = "Option::is_none")]
 	pub pending: Option<Vec<i64>>,
@@ -51,6 +56,8 @@ impl Ev {
 			x: 0,
 			w: 0,
 			kids: None,
+			fw: None,
+			fu: None,
 			pending: None,
 			flag: 0,
 		}
